@@ -5,7 +5,7 @@
 From Coq Require Import List NArith ZArith Lia Bool PeanoNat.
 From Coq Require Import ZifyBool ZifyNat ZifyN.
 From NV Require Import Cram.Bytes Cram.Vlq Cram.IntProofs Cram.Rans4x8 Cram.Rans4x8Proofs
-  Cram.Nx16Xform Cram.Nx16XformProofs Cram.Nx16O0 Cram.Nx16O0Proofs Cram.Nx16O0Table Cram.Nx16Full.
+  Cram.Nx16Xform Cram.Nx16XformProofs Cram.Nx16O0 Cram.Nx16O0Proofs Cram.Nx16O0Table Cram.Nx16O1 Cram.Nx16Full.
 Import ListNotations.
 Ltac Zify.zify_post_hook ::= Z.div_mod_to_equations.
 Open Scope N_scope.
@@ -223,19 +223,32 @@ Qed.
 
 (* ---------- the whole stream ---------- *)
 
-(* For EVERY flag byte without STRIPE and every byte string shorter than 2^28: the model of
-   rans_nx16::encode never panics or diverges, and unless it hands the data to the order-1 coder
-   the model of rans_nx16::decode returns the input from the emitted stream -- PACK and RLE applied
-   or refused, CAT given or forced, 4 or 32 states, with or without the size field. *)
-Theorem nx_full_roundtrip f src :
-  f_stripe f = false -> Forall byte src -> N.of_nat (length src) < 268435456 ->
-  match nx_encode_e f src with
-  | NeOk bytes => nx_decode_e bytes (N.of_nat (length src)) = DOk src
-  | NeOrder1 => True
-  | _ => False
-  end.
+(* what the entropy stage has to provide: the order-0 coder does (nx_o0_roundtrip); for the
+   order-1 coder it is the hypothesis [O1ok] below until NV.Cram.Nx16O1Full discharges it *)
+Definition entropy_ok (enc : nat -> list N -> enc_result) (dec : list N -> nat -> nat -> res (list N)) : Prop :=
+  forall n src, (n = 4 \/ n = 32)%nat -> (n <= length src)%nat ->
+    Forall byte src -> N.of_nat (length src) < 268435456 ->
+    exists body, enc n src = EncOk body /\ dec body (length src) n = ROk src.
+
+Lemma entropy_ok_o0 : entropy_ok nx_o0_encode nxd0_decode.
 Proof.
-  intros Hstripe Hb Hlen. unfold nx_encode_e. rewrite Hstripe.
+  intros n src Hn Hl Hb Hlen.
+  assert (Hn0 : (0 < n)%nat) by lia.
+  assert (Hne : src <> []) by (intro Hc; subst src; cbn [length] in Hl; lia).
+  destruct (nx_o0_roundtrip n src [] Hn0 Hne Hb ltac:(lia)) as [body [He Hd]].
+  exists body. split; [exact He|]. rewrite app_nil_r in Hd. exact Hd.
+Qed.
+
+(* For EVERY flag byte without STRIPE and every byte string shorter than 2^28: the model of
+   rans_nx16::encode never panics or diverges and the model of rans_nx16::decode returns the input
+   from the emitted stream -- PACK and RLE applied or refused, CAT given or forced, order 0 or 1,
+   4 or 32 states, with or without the size field. *)
+Theorem nx_full_roundtrip_gen f src :
+  (f_order f = true -> entropy_ok nx_o1_encode nxd1_decode) ->
+  f_stripe f = false -> Forall byte src -> N.of_nat (length src) < 268435456 ->
+  exists bytes, nx_encode_e f src = NeOk bytes /\ nx_decode_e bytes (N.of_nat (length src)) = DOk src.
+Proof.
+  intros HO1 Hstripe Hb Hlen. unfold nx_encode_e. rewrite Hstripe.
   destruct (nx_pack_stage f src) as [[f1 s1] h1] eqn:E1.
   destruct (nx_rle_stage f1 s1) as [[f2 s2] h2] eqn:E2.
   destruct (pack_stage_spec f src f1 s1 h1 E1 Hb ltac:(lia))
@@ -245,11 +258,12 @@ Proof.
   set (f3 := if (length s2 <? state_count f2)%nat then force_cat f2 else f2).
   assert (H3 : f_stripe f3 = false /\ f_nosize f3 = f_nosize f /\ f_pack f3 = f_pack f1 /\
                f_rle f3 = f_rle f2 /\ state_count f3 = state_count f2 /\
-               (f_cat f3 = false -> (state_count f3 <= length s2)%nat)).
+               (f_cat f3 = false -> (state_count f3 <= length s2)%nat) /\
+               (f_order f3 = true -> f_order f = true)).
   { unfold f3. destruct (length s2 <? state_count f2)%nat eqn:E.
     - cbn. repeat split; try congruence; try discriminate.
     - apply Nat.ltb_ge in E. repeat split; try congruence; try (intros _; exact E). }
-  destruct H3 as [S3 [N3 [P3 [R3 [C3 L3]]]]].
+  destruct H3 as [S3 [N3 [P3 [R3 [C3 [L3 O3]]]]]].
   clearbody f3.
   (* what the decoder does with the head of the stream, whatever the data stage is *)
   assert (Hhead : forall body,
@@ -260,8 +274,9 @@ Proof.
              | None => DErr
              | Some (payload, _) => DOk payload
              end
-           else if f_order f3 then DUnsupported
-           else match nxd0_decode body (N.to_nat (N.of_nat (length s2))) (state_count f3) with
+           else match (if f_order f3
+                       then nxd1_decode body (N.to_nat (N.of_nat (length s2))) (state_count f3)
+                       else nxd0_decode body (N.to_nat (N.of_nat (length s2))) (state_count f3)) with
                 | ROk d => DOk d
                 | RErr => DErr
                 | RPanic => DPanic
@@ -276,9 +291,13 @@ Proof.
         | Some table => pack_decode table d2 (N.to_nat (N.of_nat (length src)))
         | None => DOk d2
         end
-      | e => e
+      | DErr => DErr
+      | DPanic => DPanic
+      | DUnsupported => DUnsupported
       end
-    | e => e
+    | DErr => DErr
+    | DPanic => DPanic
+    | DUnsupported => DUnsupported
     end).
   { intros body. cbn [nx_decode_e]. destruct (nx_flags_roundtrip f3) as [Hfb _]. rewrite Hfb.
     rewrite N3, S3, P3, R3.
@@ -292,15 +311,31 @@ Proof.
     match goal with |- match ?X with _ => _ end = _ => destruct X as [d| | |] end; try reflexivity.
     match goal with |- match ?X with _ => _ end = _ => destruct X as [d2| | |] end; reflexivity. }
   destruct (f_cat f3) eqn:Ecat.
-  - rewrite Hhead. try rewrite Ecat. rewrite Nnat.Nat2N.id.
+  - eexists. split; [reflexivity|]. rewrite Hhead. try rewrite Ecat. rewrite Nnat.Nat2N.id.
     rewrite <- (app_nil_r s2) at 1. rewrite split_off_app.
     rewrite !Nnat.Nat2N.id. rewrite Hrd. exact Hpd.
-  - destruct (f_order f3) eqn:Eord; [exact I|].
-    assert (Hne : s2 <> []).
-    { specialize (L3 eq_refl). intro Hc. subst s2. cbn [length] in L3.
-      rewrite C3 in L3. unfold state_count in L3. destruct (f_n32 f2); lia. }
-    assert (Hn : (0 < state_count f3)%nat) by (unfold state_count; destruct (f_n32 f3); lia).
-    destruct (nx_o0_roundtrip (state_count f3) s2 [] Hn Hne Hb2 ltac:(lia)) as [body [Henc Hdec]].
-    rewrite Henc. rewrite Hhead. try rewrite Ecat. try rewrite Eord. rewrite !Nnat.Nat2N.id.
-    rewrite app_nil_r in Hdec. rewrite Hdec. rewrite Hrd. exact Hpd.
+  - specialize (L3 eq_refl).
+    assert (Hn : (state_count f3 = 4 \/ state_count f3 = 32)%nat)
+      by (unfold state_count; destruct (f_n32 f3); [right|left]; reflexivity).
+    assert (Hent : exists body,
+               (if f_order f3 then nx_o1_encode (state_count f3) s2 else nx_o0_encode (state_count f3) s2)
+               = EncOk body /\
+               (if f_order f3 then nxd1_decode body (length s2) (state_count f3)
+                else nxd0_decode body (length s2) (state_count f3)) = ROk s2).
+    { destruct (f_order f3) eqn:Eord.
+      - apply (HO1 (O3 eq_refl)); try assumption. lia.
+      - apply entropy_ok_o0; try assumption. lia. }
+    destruct Hent as [body [Henc Hdec]].
+    rewrite Henc. eexists. split; [reflexivity|].
+    rewrite Hhead. try rewrite Ecat. rewrite !Nnat.Nat2N.id.
+    rewrite Hdec. rewrite Hrd. exact Hpd.
+Qed.
+
+(* the part that needs nothing about the order-1 coder *)
+Theorem nx_full_roundtrip_o0 f src :
+  f_order f = false ->
+  f_stripe f = false -> Forall byte src -> N.of_nat (length src) < 268435456 ->
+  exists bytes, nx_encode_e f src = NeOk bytes /\ nx_decode_e bytes (N.of_nat (length src)) = DOk src.
+Proof.
+  intros Ho. apply nx_full_roundtrip_gen. intros Hc. congruence.
 Qed.
